@@ -13,9 +13,6 @@ open EasyMl.Spec EasyMl.Fallible
 set_option linter.unusedSectionVars false
 set_option linter.unusedVariables false
 
-/-- the size `partition` reports for the sub-grid with `rl` rows and `cl` columns -/
-def normSize (rl cl : Nat) : Nat × Nat := if rl = 0 ∨ cl = 0 then (0, 0) else (rl, cl)
-
 theorem partSlices_length (C rs rl cs cl : Nat) : (partSlices C rs rl cs cl).length = rl := by
   simp [partSlices]
 
